@@ -1,29 +1,33 @@
 #!/bin/bash
 # tools/seed_matrix.sh [seed-name...] — run EVERY quick check (primary build configuration only) against every
 # seeded change and record which checks report a violation: /verif/seeded/matrix.tsv (seed <TAB> caught-by list).
-# /repo is patched and reverted per seed; evidence files are preserved.
+# /repo is patched and reverted per seed; evidence files are preserved. The harness is built once per seed and the
+# checks then run side by side (MATRIX_JOBS at a time).
 set -u
 cd /verif
 SEEDS=("$@"); [ ${#SEEDS[@]} -gt 0 ] || SEEDS=($(ls seeded | grep -E '^C[0-9]+-[0-9]+$'))
 CHECKS=$(jq -r '.checks[].property_id' MANIFEST.json)
 OUT=/verif/seeded/matrix.tsv; touch $OUT
 SAVE=/verif/.work/evidence.keep
+RES=/verif/.work/matrix-res
 for S in "${SEEDS[@]}"; do
   P=/verif/seeded/$S/patch.diff
   [ -z "$(git -C /repo status --porcelain)" ] || { echo "/repo not clean"; exit 2; }
   git -C /repo apply "$P" 2>/dev/null || { echo -e "$S\tPATCH-DOES-NOT-APPLY" >> $OUT; continue; }
   rm -rf $SAVE; mkdir -p /verif/.work; cp -r /verif/evidence $SAVE
-  CAUGHT=""
-  for C in $CHECKS; do
-    OUTP=$(VERIF_CONFIG=full timeout 900 ./check $C quick 2>&1); rc=$?
-    if [ $rc -eq 1 ] && echo "$OUTP" | grep -q "^VIOLATION property=$C"; then CAUGHT="$CAUGHT $C"; 
-    elif [ $rc -ne 0 ]; then CAUGHT="$CAUGHT $C(rc=$rc)"; fi
-  done
+  rm -rf $RES; mkdir -p $RES
+  if VERIF_CONFIG=full ./check build >/dev/null 2>$RES/build.err; then
+    echo $CHECKS | tr ' ' '\n' | xargs -P ${MATRIX_JOBS:-5} -I{} sh -c 'C={}; if [ $C = C19 ]; then OUTP=$(VERIF_CONFIG=full timeout 900 ./check $C quick 2>&1); else OUTP=$(timeout 900 target/bin/vmc-full $C --tier quick 2>&1); fi; rc=$?; if [ $rc -eq 1 ] && echo "$OUTP" | grep -q "^VIOLATION property=$C"; then echo "$C" > '$RES'/$C; elif [ $rc -ne 0 ]; then echo "$C(rc=$rc)" > '$RES'/$C; fi'
+    CAUGHT=$(cat $RES/C* 2>/dev/null | sort | tr '\n' ' ')
+  else
+    CAUGHT="BUILD-FAILS"
+  fi
   git -C /repo checkout -- .
   rm -rf /verif/evidence; mv $SAVE /verif/evidence
   grep -v "^$S	" $OUT > $OUT.tmp; mv $OUT.tmp $OUT
-  echo -e "$S\t${CAUGHT# }" >> $OUT
-  echo "$S: ${CAUGHT# }"
+  CAUGHT=$(echo $CAUGHT)
+  echo -e "$S\t$CAUGHT" >> $OUT
+  echo "$S: $CAUGHT"
 done
 sort -o $OUT $OUT
 # leave a binary built from the clean tree behind
